@@ -24,7 +24,9 @@ Definition to_batom (b : fbatom A) : Window.batom A :=
   | FInit _ a => Window.BInit A a
   | FKwI _ => Window.BKwI A
   | FKwF _ => Window.BKwF A
+  | FTel _ => Window.BKwI A                      (* no counterpart in the window model: excluded by tel_free below *)
   end.
+Definition tel_free (l : list (fsgn * fbatom A)) : Prop := forall x, In x l -> snd x <> FTel A.
 Definition to_spart (p : fpart) : Window.spart := match p with FInitial => Window.Initial | FDynamic => Window.Dynamic | _ => Window.Always end.
 Definition to_crule (r : frule) : Window.crule A :=
   {| Window.cp := to_spart (fp A r); Window.cb := map (fun l => (to_sgn (fst l), to_batom (snd l))) (fb A r) |}.
@@ -37,6 +39,7 @@ Definition ginst_q (s : nat) (t u : Z) (q : qatom) : gf :=
   | QI _ => Var _ (CoreRun.GI A t)
   | QF _ => Var _ (CoreRun.GF A t)
   | QFU _ => Var _ (CoreRun.GF A u)
+  | QTel _ => Bot _
   end.
 Fixpoint body_q (s : nat) (t u : Z) (l : list (fsgn * qatom)) : gf :=
   match l with [] => Window.GTop A | (sg, q) :: r => And _ (Window.sgn_gf A (to_sgn sg) (ginst_q s t u q)) (body_q s t u r) end.
@@ -52,10 +55,10 @@ Proof.
   destruct (decide cons_shape (BodyLit ns) lead 1 trail ini) as [r la ts tz| | |] eqn:E; cbn in S; try discriminate.
   destruct (decide_accept _ _ _ _ _ _ _ _ _ _ E) as (-> & -> & -> & ->). cbn [head_before andb negb]. now rewrite andb_false_r, andb_true_r.
 Qed.
-Lemma tr_blit_cons s t u l : exists q, tr_blit A cons_shape l = Some ((fst l, q), Window.ahead A (to_batom (snd l))) /\
+Lemma tr_blit_cons s t u l : snd l <> FTel A -> exists q, tr_blit A cons_shape l = Some ((fst l, q), Window.ahead A (to_batom (snd l))) /\
   ginst_q s t u q = Window.inst A s t (to_batom (snd l)).
 Proof.
-  destruct l as [sg b]. destruct b as [a lead trail|a| |]; cbn [tr_blit fst snd to_batom].
+  intros NT. destruct l as [sg b]. destruct b as [a lead trail|a| | |]; cbn [tr_blit fst snd to_batom]; [| | | |cbn in NT; contradiction].
   - rewrite decide_body_cons by (intros X; discriminate X).
     assert (((Z.of_nat trail - Z.of_nat lead =? 0)%Z && false) = false) as -> by apply andb_false_r. cbn [tr_time].
     eexists. split.
@@ -69,12 +72,12 @@ Proof.
   - eexists. split; reflexivity.
   - eexists. split; reflexivity.
 Qed.
-Lemma tr_body_cons s t u : forall l, exists bd, tr_body A cons_shape l = Some (bd, Window.lookahead A (map (fun x => (to_sgn (fst x), to_batom (snd x))) l)) /\
+Lemma tr_body_cons s t u : forall l, tel_free l -> exists bd, tr_body A cons_shape l = Some (bd, Window.lookahead A (map (fun x => (to_sgn (fst x), to_batom (snd x))) l)) /\
   body_q s t u bd = Window.body_gf A s t (map (fun x => (to_sgn (fst x), to_batom (snd x))) l).
 Proof.
-  induction l as [|x l (bd & E & B)]; cbn [tr_body map Window.lookahead].
+  induction l as [|x l IH]; intros TF; cbn [tr_body map Window.lookahead].
   - exists []. split; reflexivity.
-  - destruct (tr_blit_cons s t u x) as (q & Eq & G). rewrite Eq, E. exists ((fst x, q) :: bd). split; [reflexivity|].
+  - destruct (IH (fun y Hy => TF y (or_intror Hy))) as (bd & E & B). destruct (tr_blit_cons s t u x (TF x (or_introl eq_refl))) as (q & Eq & G). rewrite Eq, E. exists ((fst x, q) :: bd). split; [reflexivity|].
     cbn [body_q Window.body_gf]. now rewrite G, B.
 Qed.
 Lemma body_q_app s t u l1 l2 H T : hsat _ H T (body_q s t u (l1 ++ l2)) = hsat _ H T (body_q s t u l1) && hsat _ H T (body_q s t u l2)
@@ -84,7 +87,7 @@ Proof.
 Qed.
 Definition tmp_of (r : qrule) : qrule := {| qh := qh A r; qb := (qb A r ++ [(FPos, QFU A)])%list |}.
 (* a constraint outside the final part: accepted, depth = look-ahead of the window model, and its two copies mean the window instances *)
-Theorem constraint_copies (r : frule) : fh A r = FCons A -> is_final (fp A r) = false ->
+Theorem constraint_copies (r : frule) : fh A r = FCons A -> is_final (fp A r) = false -> tel_free (fb A r) ->
   exists t, transform_rule A r = Some t /\ t_shift A t = Window.lookahead A (Window.cb A (to_crule r)) /\ t_fut A t = [] /\
     forall (H T : interp gatom) (s k : nat),
       (hsat _ H T (ground_cons s (Z.of_nat k) (Z.of_nat s) (tmp_of (t_rule A t))) = hsat _ H T (Window.ginst A s k true (to_crule r)) /\
@@ -92,10 +95,10 @@ Theorem constraint_copies (r : frule) : fh A r = FCons A -> is_final (fp A r) = 
       (hsat _ H T (ground_cons s (Z.of_nat k) (Z.of_nat s) (t_rule A t)) = hsat _ H T (Window.ginst A s k false (to_crule r)) /\
        csat _ T (ground_cons s (Z.of_nat k) (Z.of_nat s) (t_rule A t)) = csat _ T (Window.ginst A s k false (to_crule r))).
 Proof.
-  intros Hh Hf. unfold transform_rule. rewrite Hh, Hf. cbn [tr_head]. fold cons_shape.
-  destruct (tr_body_cons 0 0%Z 0%Z (fb A r)) as (bd & E & _). rewrite E. eexists. split; [reflexivity|]. cbn [t_shift t_fut t_rule]. split; [reflexivity|]. split; [reflexivity|].
+  intros Hh Hf TF. unfold transform_rule. rewrite Hh, Hf. cbn [tr_head]. fold cons_shape.
+  destruct (tr_body_cons 0 0%Z 0%Z (fb A r) TF) as (bd & E & _). rewrite E. eexists. split; [reflexivity|]. cbn [t_shift t_fut t_rule]. split; [reflexivity|]. split; [reflexivity|].
   intros H T s k. rewrite app_nil_r.
-  destruct (tr_body_cons s (Z.of_nat k) (Z.of_nat s) (fb A r)) as (bd' & E' & B). rewrite E in E'. injection E' as <-.
+  destruct (tr_body_cons s (Z.of_nat k) (Z.of_nat s) (fb A r) TF) as (bd' & E' & B). rewrite E in E'. injection E' as <-.
   unfold ground_cons, tmp_of, Window.ginst, to_crule. cbn [qb qh Window.cb].
   destruct (body_q_app s (Z.of_nat k) (Z.of_nat s) bd [(FPos, QFU A)] H T) as [Ah Ac].
   cbn [hsat csat]. rewrite Ah, Ac, B. cbn [body_q hsat csat to_sgn Window.sgn_gf ginst_q Window.GTop implb andb].
@@ -277,14 +280,15 @@ End Order.
 (* ---------------- where the auxiliary future atoms occur (the cleanliness hypotheses of Spec/DefElim.v for the rewritten program) ---------------- *)
 Section Shape.
 Variable A : Type.
-Definition plain_atom (q : qatom A) : bool := match q with QU _ _ _ | QI _ | QF _ => true | _ => false end.
+Definition plain_atom (q : qatom A) : bool := match q with QU _ _ _ | QI _ | QF _ | QTel _ => true | _ => false end.
 Lemma tr_blit_plain sh l y m : tr_blit A sh l = Some (y, m) -> plain_atom (snd y) = true.
 Proof.
-  destruct l as [s b]. destruct b as [a lead trail|a| |]; cbn [tr_blit].
+  destruct l as [s b]. destruct b as [a lead trail|a| | |]; cbn [tr_blit].
   - destruct (decide sh (BodyLit (is_pos s)) lead 1 trail false) as [[|] la ts tz| | |]; try discriminate. intros E. injection E as <- _. reflexivity.
   - destruct (decide sh (BodyLit (is_pos s)) 0 1 0 true) as [[|] la ts tz| | |]; try discriminate. intros E. injection E as <- _. reflexivity.
   - intros E. injection E as <- _. reflexivity.
   - intros E. injection E as <- _. reflexivity.
+  - destruct (is_constraint_gen _ _ _ _ _ _) as [c|]; [|discriminate]. destruct (tel_ctx_reject_gen (negb (is_pos s)) c) as [[|]|]; try discriminate. intros E. injection E as <- _. reflexivity.
 Qed.
 Lemma tr_body_plain sh : forall l bd m, tr_body A sh l = Some (bd, m) -> forallb (fun y => plain_atom (snd y)) bd = true.
 Proof.
@@ -301,12 +305,13 @@ Theorem accepted_rule_shape (r : frule A) t : transform_rule A r = Some t ->
   | FDisj _ l => qh A (t_rule A t) = QHDisj A l /\ t_fut A t = []
   | FChoice _ l => qh A (t_rule A t) = QHChoice A l /\ t_fut A t = []
   | FCons _ => qh A (t_rule A t) = QHCons A /\ t_fut A t = []
+  | FTelHead _ => qh A (t_rule A t) = QHAux A 0 /\ t_fut A t = []
   end.
 Proof.
   unfold transform_rule. destruct (tr_head A (fh A r)) as [[hd fut]|] eqn:Eh; [|discriminate]. destruct (tr_body A (shape_of A (fh A r)) (fb A r)) as [[bd m]|] eqn:Eb; [|discriminate].
   intros E. injection E as <-. cbn [t_rule t_fut qb qh]. split.
   - rewrite forallb_app, (tr_body_plain _ _ _ _ Eb). destruct (is_final (fp A r)); reflexivity.
-  - destruct (fh A r) as [a n|l|l|] eqn:Hh; cbn [tr_head] in Eh.
+  - destruct (fh A r) as [a n|l|l| |] eqn:Hh; cbn [tr_head] in Eh.
     + destruct (decide (shape_of A (FNorm A a n)) HeadLit 0 1 n false) as [ren la ts tz| | |] eqn:Dd; try discriminate. destruct la; [discriminate|].
       destruct (decide_accept _ _ _ _ _ _ _ _ _ _ Dd) as (Ets & Etz & Er & _). cbn [head_before lit_nosign shape_of nosign andb] in Er. rewrite andb_true_r in Er.
       injection Eh as <- <-. rewrite Etz, andb_false_r. cbn [tr_time]. rewrite Ets, Er.
@@ -317,5 +322,30 @@ Proof.
     + destruct (plain_elem (shape_of A (FDisj A l))); [|discriminate]. injection Eh as <- <-. split; reflexivity.
     + destruct (plain_elem (shape_of A (FChoice A l))); [|discriminate]. injection Eh as <- <-. split; reflexivity.
     + injection Eh as <- <-. split; reflexivity.
+    + injection Eh as <- <-. split; reflexivity.
 Qed.
 End Shape.
+(* ---------------- head formulas are numbered consecutively over the whole input ---------------- *)
+Section Aux.
+Variable A : Type.
+Variable leA : A -> A -> bool.
+Definition tel_heads (P : list (frule A)) : nat := List.length (filter (fun r => is_tel_head A (fh A r)) P).
+Lemma step_naux acc r o : step A leA (Some acc) r = Some o -> o_naux A o = (if is_tel_head A (fh A r) then S (o_naux A acc) else o_naux A acc).
+Proof.
+  unfold step. destruct (transform_rule A r) as [t|]; [|discriminate].
+  destruct (lookahead_part_gen (Z.of_nat (t_shift A t)) (is_final (fp A r))) as [[|]|]; try discriminate; intros E; injection E as <-; reflexivity.
+Qed.
+Lemma fold_step_naux P : forall acc o, fold_left (step A leA) P (Some acc) = Some o -> o_naux A o = o_naux A acc + tel_heads P.
+Proof.
+  induction P as [|r P IH]; intros acc o E; cbn [fold_left] in E.
+  - injection E as <-. unfold tel_heads. cbn. lia.
+  - destruct (step A leA (Some acc) r) as [o1|] eqn:St; [|exfalso; clear -E; induction P as [|r' P IHP]; cbn [fold_left] in E; [discriminate|now apply IHP]].
+    rewrite (IH o1 o E), (step_naux acc r o1 St). unfold tel_heads. cbn [filter]. destruct (is_tel_head A (fh A r)); cbn [List.length]; lia.
+Qed.
+(* the auxiliary atoms __aux_0 .. __aux_(n-1) stand for the n head formulas of the whole input (one counter across all statements and files) *)
+Theorem aux_atoms_count (P : list (frule A)) o : transform_program A leA P = Some o -> o_naux A o = tel_heads P.
+Proof.
+  unfold transform_program. destruct (fold_left (step A leA) P (Some (empty A))) as [o0|] eqn:F; [|discriminate]. intros E. injection E as <-. cbn [o_naux].
+  now rewrite (fold_step_naux P (empty A) o0 F).
+Qed.
+End Aux.
